@@ -223,6 +223,12 @@ def run(chk, repo, tier):
     chk.ob('C12-e', 'N-cutoff', ffit.key, 'the least-squares solve keeps every singular value above rounding level', cut_ok and n_inv > 0,
            det_c or 'default cut-off', ffit.loc())
     # the basis holds real-valued polynomials: the array that receives them is a float array whatever the mask's type
+    basis_dtype_rule(chk, repo, 'C12-e')
+
+
+def basis_dtype_rule(chk, repo, clause):
+    """zernike_basis stores real-valued modes: its array must be a float array whatever the mask's type (C12-e; reused by C11)"""
+    fbas = repo.func('zernike.zernike_basis')
     _, paths, _ = analyse(repo, fbas)
     flt_ok, det_f, n_alloc = True, '', 0
     for p in returns(paths):
@@ -242,7 +248,7 @@ def run(chk, repo, tier):
                                                        ("('builtin', 'float')", 'float64', 'float', 'complex128', "('builtin', 'complex')"))
                 if not floatish:
                     flt_ok, det_f = False, f'basis allocated as {nf.fmt_atom(root)[:120]}: the modes are cast to that type on assignment'
-    chk.ob('C12-e', 'T-dtype', fbas.key, 'the basis array is a float array whatever the type of the mask',
+    chk.ob(clause, 'T-dtype', fbas.key, 'the basis array is a float array whatever the type of the mask',
            (flt_ok and n_alloc > 0) if (n_alloc > 0 or not flt_ok) else None, det_f or f'{n_alloc} allocation(s)', fbas.loc())
 
 
